@@ -576,7 +576,14 @@ func c25Replay(h []c25Op) (*c25Env, error) {
 			err = s.PutBucketVersioningConfiguration(ctx, e.bucket, &storage.BucketVersioningConfiguration{Status: &st})
 			e.model.Versioning = string(st)
 			if err == nil && o.Kind == "V+" {
+				// the background key gets two more versions (an hour apart), so that it has two
+				// noncurrent versions: per-key bookkeeping of the reconciler (e.g. the
+				// NewerNoncurrentVersions counter) is then exercised across keys in either order
 				err = put(c25KeyQ, "t", false, s, ctx)
+				if err == nil {
+					time.Sleep(time.Hour)
+					err = put(c25KeyQ, "t", false, s, ctx)
+				}
 			}
 		case "Ps", "Pb", "Pt":
 			err = put(c25KeyP, strings.ToLower(o.Kind[1:]), false, s, ctx)
@@ -997,7 +1004,8 @@ func TestC25(t *testing.T) {
 		if quick() {
 			hist = append(c25Histories(2, []int{1, 25}, k6), c25HistoriesExactly(c25Histories(3, []int{25}, k6), 3)...)
 			// two depth-4 seeds: a lone delete marker, and object / marker / object
-			hist = append(hist, []c25Op{{25, "V+"}, {25, "V~"}, {25, "Pt"}, {25, "D"}}, []c25Op{{25, "Ps"}, {25, "V+"}, {25, "D"}, {25, "Ps"}})
+			hist = append(hist, []c25Op{{25, "V+"}, {25, "V~"}, {25, "Pt"}, {25, "D"}}, []c25Op{{25, "Ps"}, {25, "V+"}, {25, "D"}, {25, "Ps"}},
+				[]c25Op{{25, "Ps"}, {25, "V+"}, {25, "Ps"}, {25, "Ps"}}) // two noncurrent versions under both keys
 		} else {
 			hist = append(c25Histories(2, []int{1, 23, 25, 49}, k7), c25HistoriesExactly(c25Histories(3, []int{1, 25}, k7), 3)...)
 			hist = append(hist, c25HistoriesExactly(c25Histories(4, []int{25}, k6), 4)...)
